@@ -25,6 +25,7 @@ COMPILER_REPLAYS = {
     "u_closenv": ["replay/c08/run.sh"],
     "u_strlit": ["replay/c11/run.sh"],
     "u_dynvis": ["replay/c17/run.sh"],
+    "u_dceblk": ["replay/c09/run.sh"],
 }
 
 
